@@ -2,6 +2,7 @@ package checks
 
 import (
 	"fmt"
+	"runtime"
 	"strings"
 
 	"verif/mc"
@@ -205,6 +206,67 @@ func relScenario(p relParams) func() {
 	}
 }
 
+// manyReleasedScenario: k handlers of one connection have released and keep running (they wait for a gate that
+// opens at the very end); one more request of the same connection and two requests of a second client must
+// still be handled. k is chosen around the sizes a server might use for a worker pool (the number of CPUs).
+func manyReleasedScenario(k int) func() {
+	return func() {
+		w := world.New(world.Opts{N: 1, Window: 4})
+		if w.Cfg == nil {
+			return
+		}
+		last := 0
+		w.Handle = func(h *world.HCtx) world.Reply {
+			if h.Tok <= k {
+				h.Release()
+				w.Wait("end")
+			}
+			return world.Reply{Val: 1}
+		}
+		mc.NoBranch(true)
+		cl := w.NewClient()
+		mc.Quiesce()
+		var first []*world.Call
+		for i := 0; i < k; i++ {
+			first = append(first, w.NewCall("QuorumCallAsync"))
+		}
+		tail := w.NewCall("QuorumCallAsync")
+		last = tail.Tok
+		other := w.NewCall("QuorumCallAsync")
+		other.Cfg = cl.Cfg
+		mc.GoNamed("client1", func() {
+			for _, c := range first {
+				w.Invoke(c)
+			}
+			w.Invoke(tail)
+		})
+		mc.Quiesce()
+		mc.GoNamed("client2", func() { w.Invoke(other) })
+		mc.Quiesce()
+		name := fmt.Sprintf("release/%d-released-handlers-still-running", k)
+		running := 0
+		for _, c := range first {
+			running += w.Entered(1, c.Tok)
+		}
+		if running != k {
+			fail("C04/not-started", "many-released", "%s: only %d of %d handlers that release at once have started", name, running, k)
+		}
+		if w.Entered(1, last) != 1 {
+			fail("C04/not-started", "many-released", "%s: the handler of the next request of the same connection has not started although all earlier handlers have released", name)
+		} else {
+			checkAsyncReply(w, tail, name, "many-released")
+		}
+		if w.Entered(1, other.Tok) != 1 {
+			fail("C04/other-connection-delayed", "many-released", "%s: the request of a second client has not been handled", name)
+		} else {
+			checkAsyncReply(w, other, name, "many-released")
+		}
+		w.Open("end")
+		mc.Quiesce()
+		mc.Outcome("ok")
+	}
+}
+
 func checkAsyncReply(w *world.W, c *world.Call, name, key string) {
 	if !c.Returned || c.Fut == nil || !c.Fut.Done() {
 		fail("C04/reply-missing", key, "%s: the handler of t%d returned but the call has no result", name, c.Tok)
@@ -242,6 +304,10 @@ func relInstances(tier string) []Instance {
 			}
 		}
 	}
+	// many released handlers still running (boundary: worker pools sized by the number of CPUs)
+	for _, k := range []int{runtime.NumCPU(), runtime.NumCPU() + 1, 2*runtime.NumCPU() + 1} {
+		out = append(out, Instance{Name: fmt.Sprintf("release/%d-released-handlers-still-running", k), Bound: 0, Root: manyReleasedScenario(k)})
+	}
 	// server-stream handlers in first or second position (their preliminary replies are sent from inside the handler)
 	for _, st := range []hbeh{hStream2Gate, hStream2RelGate, hStreamSplit} {
 		for _, other := range []hbeh{hRet, hGate, hRelGate} {
@@ -262,7 +328,7 @@ func relInstances(tier string) []Instance {
 
 func init() {
 	register(&Check{ID: "C04",
-		Rule:        "one server; connection 1 issues every triple of requests over 6 handler behaviours {return, gate-then-return, release+gate, release x3+gate, release from a helper goroutine+gate, never release}; optionally a second client connection with two plain requests; plus triples that contain server-stream handlers {two replies back to back then gate, two replies + release + gate, reply + gate + reply} in first or second position; server receive buffer {0,2}; the script opens the gates in every order at quiescent points; all schedules within the deviation bound; oracle on the per-connection event log: no handler starts while an earlier one of its connection is unreleased, replies of released handlers reach their own call, a never-releasing handler blocks only its own connection; an outcome is (instance, gate order)",
+		Rule:        "one server; connection 1 issues every triple of requests over 6 handler behaviours {return, gate-then-return, release+gate, release x3+gate, release from a helper goroutine+gate, never release}; optionally a second client connection with two plain requests; plus k released handlers that keep running (k = number of CPUs, +1, 2x+1) followed by one more request of the same and one of a second client; plus triples that contain server-stream handlers {two replies back to back then gate, two replies + release + gate, reply + gate + reply} in first or second position; server receive buffer {0,2}; the script opens the gates in every order at quiescent points; all schedules within the deviation bound; oracle on the per-connection event log: no handler starts while an earlier one of its connection is unreleased, replies of released handlers reach their own call, a never-releasing handler blocks only its own connection; an outcome is (instance, gate order)",
 		Gen:         relInstances,
 		Assumptions: []string{"transport is the fakegrpc model; requests are issued as async quorum calls on a one-node configuration so that several can be outstanding"},
 	})
